@@ -53,6 +53,18 @@ def rebind_everywhere(orig, new):
 
 
 SEQ_BRANCHES = ("decrypt_tls13_aead", "decrypt_tls13_stream_cipher", "decrypt_tls12_aead", "decrypt_tls12_chacha20")
+def _dec_keys(x):
+    """key material of a QUIC decryptor object as far as it can be observed: the four attributes, else the constructor's key list it keeps, else nothing
+    (an attribute that does not exist is unobservable - it is not a key that is None)"""
+    names = ("server_key", "server_iv", "client_key", "client_iv")
+    if all(hasattr(x, a) for a in names):
+        return {a: _hex(getattr(x, a)) for a in names}
+    ks = getattr(x, "keys", None)
+    if isinstance(ks, (list, tuple)) and len(ks) >= 4 and all(isinstance(k, (bytes, bytearray)) for k in ks[:4]):
+        return {a: _hex(k) for a, k in zip(names, ks[:4])}
+    return {"unobservable": True}
+
+
 KEY_ATTRS = ("client_key", "server_key", "client_iv", "server_iv", "client_mac", "server_mac",
              "client_handshake_key", "server_handshake_key", "client_handshake_iv", "server_handshake_iv",
              "client_application_key", "server_application_key", "client_application_iv", "server_application_iv")
@@ -207,7 +219,7 @@ class QuicMonitor:
             decs = {}
             for name, dec in (getattr(self, "decryptors", {}) or {}).items():
                 lst = dec if isinstance(dec, list) else [dec]
-                decs[name] = [{a: _hex(getattr(x, a, None)) for a in ("server_key", "server_iv", "client_key", "client_iv")} for x in lst]
+                decs[name] = [_dec_keys(x) for x in lst]
             log.emit(ev="qkeys", o=oid(self), where=where, keys=ks, decs=decs, epoch_c=getattr(self, "epoch_client", None), epoch_s=getattr(self, "epoch_server", None))
 
         def set_init(self, dcid, chacha20, *a, **k):
